@@ -256,9 +256,29 @@ def neighbourhood_work(item):
     return acc
 
 
+def scale_bases():
+    """hand-made bases beyond the small: leaves that repeat (same name, text and attribute names; one of them invalid by an
+    attribute VALUE), and trees that produce more than a hundred / a thousand errors in one walk"""
+    kw = lambda t, c="kw": ["keyword", c, ({"keywordType": t} if t is not None else {}), []]   # noqa: E731
+    out = [
+        ("scale:repeated-leaves", ["keywordSet", None, {}, [kw("theme"), kw("theme"), kw("place"), kw("zz-unlisted"), kw("theme"),
+                                                              kw(None), ["keywordThesaurus", "th", {}, []]]], 1),
+        ("scale:repeated-leaves-invalid-first", ["keywordSet", None, {}, [kw("zz-unlisted"), kw("theme"), kw("zz-unlisted"), kw("theme")]], 1),
+    ]
+    for n in (101, 130, 1100):
+        kids = [kw("theme", "") for _ in range(n)] + [kw("zz-unlisted"), ["keywordThesaurus", "", {}, []]]
+        out.append((f"scale:{n}-invalid-siblings", ["keywordSet", None, {}, kids], 0))
+    # the same number of errors spread over depth: dataset > keywordSet x 12 > 10 invalid keywords each
+    ks = [["keywordSet", None, {}, [kw("theme", "") for _ in range(10)] + [kw("zz-unlisted")]] for _ in range(12)]
+    out.append(("scale:132-errors-in-12-subtrees", ["dataset", None, {}, [["title", "t", {}, []]] + ks], 0))
+    return out
+
+
 def plan(tier):
     items = []
     bases = witness.all_base_specs(rich=(tier == "thorough"), with_tour=(tier == "thorough"), max_size=60)
+    for label, spec, d in scale_bases():
+        items.append((tier, label, spec, d, "tiny", False, None, None))
     for label, spec in bases:
         sz = e3.size(spec)
         items.append((tier, label, spec, 1, True, False, None, None))
@@ -283,7 +303,10 @@ def replay(case):
     if case.get("spec") is not None:
         spec = case["spec"]
     else:
-        spec = c04.eml_xml_spec() if case["base"].startswith("tests/data/eml.xml") else case["base_spec"]
+        if case["base"].startswith("scale:"):
+            spec = dict((l_, s_) for l_, s_, _d in scale_bases())[case["base"]]
+        else:
+            spec = c04.eml_xml_spec() if case["base"].startswith("tests/data/eml.xml") else case["base_spec"]
         for m in case["mutations"]:
             spec = e3.apply(spec, m)
     base_case = {k: v for k, v in case.items() if k not in ("metadata_at", "metadata_content")}
